@@ -310,6 +310,32 @@ pub fn purity_letters(seed: u64) -> Vec<(String, u8, Vec<u8>)> {
             }
         }
     }
+    // blocks whose runs leave the 64 positions (malformed but tolerated: the coefficients of such a
+    // block are dropped): what the block then contains must not come from anybody else's decode
+    for &(w, h) in &[(16u16, 16u16), (32, 16), (16, 32)] {
+        for version in [0u8, 1] {
+            let (mbw, mbh) = mb_grid(w, h);
+            let n = mbw * mbh;
+            for which in 0..2usize {
+                let mbs: Vec<Mb> = (0..n)
+                    .map(|i| {
+                        let mut blocks: [Blk; 6] = std::array::from_fn(|b| Blk::dc(70 + ((i * 6 + b) * 11 % 90) as u8));
+                        let hit = if which == 0 { i == 0 } else { i + 1 == n };
+                        if hit {
+                            for (b, blk) in blocks.iter_mut().enumerate() {
+                                if which == 1 || b == 0 {
+                                    blk.ev = vec![ev_auto(false, 40, 3, version == 1), ev_auto(true, 40, -2, version == 1)];
+                                }
+                            }
+                        }
+                        Mb::Coded { kind: Kind::Intra, dquant: 0, mvd: vec![], blocks }
+                    })
+                    .collect();
+                let pic = Pic { hdr: shdr(w, h, 0, 9, 7, version), mbs };
+                v.push((format!("I {w}x{h} v{version} with runs leaving the block in {}", if which == 0 { "block 0 of the first macroblock" } else { "every block of the last macroblock" }), 1u8, encode_bytes(&pic)));
+            }
+        }
+    }
     // Sorenson v1 wide levels
     for q in [2u8, 31] {
         for level in [600i16, -1023] {
